@@ -146,6 +146,9 @@ impl RelayTransport {
                     segment_size = ?dm.datagrams.segment_size,
                     "dropping received datagram: noq buffer too small"
                 );
+                // The item was consumed without producing a datagram and no waker may be
+                // registered on the queue: make sure we are polled again.
+                cx.waker().wake_by_ref();
                 break;
                 // In theory we could put some logic in here to fragment the datagram in case
                 // we still have enough room in our `buf_out` left to fit a couple of
